@@ -39,6 +39,9 @@ bool_t btokPwdTransition(btok_pwd_state* state, btok_pwd_event event)
 	case pin_deactivate:
 		if (state->auth != auth_pin && state->auth != auth_puk)
 			return FALSE;
+		// деактивация не должна менять статус блокировки и счетчик попыток
+		if (state->pin != pin3)
+			return FALSE;
 		state->pin = pind;
 		if (state->auth == auth_pin)
 			state->auth = auth_none;
